@@ -144,6 +144,7 @@ class E2:
         self.escaping = set()  # closures handed to library higher-order functions
         self.unresolved = collections.Counter()
         self.defaulted_lib = collections.Counter()
+        self.lib_seen = {}  # dotted callee -> classification (audit trail of the library model)
         self.changed = True
         self.rounds = 0
         self.track_escapes = track_escapes
@@ -955,6 +956,11 @@ class Interp:
     def lib_call(self, e, fn, args, kws, star_pos):
         name = fn.attr
         vals = args + list(kws.values())
+        self.eng.lib_seen.setdefault(norm(fn), (
+            "mutating" if name in LIB_MUTATORS or name == "at" else
+            "view-returning" if name in VIEW_FUNCS else
+            "container-aliasing" if name in LIB_CONTAINER_ALIAS else
+            "fresh" if name in KNOWN_FRESH_LIB or name == "array" else "defaulted-fresh"))
         if name in MUT_METHODS and name not in LIB_MUTATORS:
             # false friend: np.sort(x) / np.partition(x) are functions returning a new array
             self.S.sink_sites.setdefault((e.lineno, e.col_offset, "mutcall"), {
